@@ -49,6 +49,39 @@ def drive_case(case, extra):
     return rec
 
 
+def drive_hist(case, extra):
+    """Histories of build / rewrite / drop operations (the ones C02_Hist.tla generates: a heap of
+    CSE nodes whose addresses are reused) on ONE long-lived commutative folder and ONE long-lived
+    distributor: every rewrite must be the rewrite of its own input, whatever was processed - and
+    freed - before.  One record per rewrite step; the other rewrites are not run (SKIP)."""
+    from pymbolic.mapper.collector import TermCollector
+    from pymbolic.mapper.constant_folder import CommutativeConstantFoldingMapper
+    from pymbolic.mapper.distributor import DistributeMapper
+    pool = extra["pool"]
+    folder = CommutativeConstantFoldingMapper()
+    dist = DistributeMapper(TermCollector(frozenset()))
+    slots, recs = {}, []
+    na = {"r": "unser", "text": "not run in a history"}
+    for k, op in enumerate(case["hist"]):
+        if op["op"] == "build":
+            slots[op["s"]] = ser.from_json(pool[op["i"] - 1])
+        elif op["op"] == "drop":
+            del slots[op["s"]]
+        else:
+            expr = slots[op["s"]]
+            # the folder's result in its own slot (value + at most one constant); the
+            # distributor's in the slot judged for value only (a CSE is opaque to the shape
+            # clauses, and a sum of CSEs is outside the collector's fragment: a refusal is SKIP)
+            dres = ser.obj_to_json(lambda: dist(expr))                    # noqa: B023
+            if dres.get("r") == "err":
+                dres = na
+            out = [na] * 6 + [dres, ser.obj_to_json(lambda: folder(expr)), na]      # noqa: B023
+            del expr
+            recs.append({"id": f"{case['id']}.{k}", "e": pool[op["i"] - 1], "out": out,
+                         "history": case["hist"], "step": k})
+    return recs
+
+
 def _with_shared(recs):
     """One more record (id + "s") per case whose shared-object build was rewritten differently:
     the differing results take the place of the distinct-build ones and are judged like them."""
@@ -126,7 +159,8 @@ def classify(out, verdicts, byid):
                         and k.get("pattern") in pats
                         and k.get("clause") in cl), None)
             sig = hit or {"rewrite": b["rw"], "clauses": cl, "error": errname, "patterns": sorted(pats)}
-            out.fail(sig, {"case": {"id": rec["id"], "e": rec["e"]}, "rewrite": b["rw"], "recorded": res})
+            out.fail(sig, {"case": {"id": rec["id"], "e": rec["e"]}, "rewrite": b["rw"], "recorded": res,
+                           **({"history": rec["history"], "step": rec["step"]} if "history" in rec else {})})
 
 
 def judge(out, recs, wd):
@@ -151,6 +185,23 @@ def run(tier, seed, out):
         c["id"] = i
     kit.log(f"C11: TLC generated {len(cases)} trees ({gen.wall:.1f}s)")
     recs = _with_shared(kit.drive("harness.c11", "drive_case", cases, None, chunk=200))
+    # histories on one long-lived folder / distributor, with the heap in the model (C02_Hist.tla)
+    hist = kit.run_tlc("C02_Hist", "C02_Hist", coverage=False)
+    kit.require_clean(hist, "history model C02_Hist (a CSE result cached for one node never answers for another)")
+    out.add_tlc(hist)
+    hp = hist.printed()
+    pool = [p["pool"] for p in hp if "pool" in p]
+    hcases = [p for p in hp if "hist" in p]
+    if len(pool) != 1 or not hcases:
+        raise kit.MachineryError("C02_Hist printed no pool / histories")
+    step = 1 if tier == "thorough" else 3
+    hcases = hcases[::step]
+    for i, c in enumerate(hcases):
+        c["id"] = f"h{i}"
+    hrecs = [r for rs in kit.drive("harness.c11", "drive_hist", hcases, {"pool": pool[0]}, chunk=100)
+             for r in rs]
+    out.extra["history_steps_judged"] = len(hrecs)
+    recs = recs + hrecs
     out.evaluations += (len(NAMES) + 7) * len(cases)
     out.extra["shared_build_results_that_differ"] = sum(1 for r in recs if r.get("sharedbuild"))
 
@@ -178,7 +229,15 @@ def run(tier, seed, out):
 def replay(path, out):
     wd = kit.fresh_workdir("C11")
     d = json.loads(open(path).read())
-    case = {k: d["detail"]["case"][k] for k in ("id", "e")}
+    det = d["detail"]
+    if "history" in det:
+        hist = kit.run_tlc("C02_Hist", "C02_Hist_neg", workers=2, coverage=False)      # prints the pool
+        pool = [p["pool"] for p in hist.printed() if "pool" in p][0]
+        recs = [r for r in kit.drive("harness.c11", "drive_hist", [{"id": "h0", "hist": det["history"]}],
+                                     {"pool": pool})[0]]
+        judge(out, recs, wd)
+        return
+    case = {k: det["case"][k] for k in ("id", "e")}
     case["id"] = str(case["id"]).rstrip("s")
     recs = _with_shared(kit.drive("harness.c11", "drive_case", [case], None))
     judge(out, recs, wd)
